@@ -314,6 +314,13 @@ class Normalizer:
         private = t.name.startswith("_") and not t.name.startswith("__")
         if private and (same_cls or same_mod):
             return t
+        # methods of a private class of the package are internal whatever
+        # they are called (a private collaborator / local helper object)
+        if (
+            t.cls is not None and t.cls.name.startswith("_") and not t.cls.name.startswith("__")
+            and not t.name.startswith("__") and not t.cls.bases
+        ):
+            return t
         # a module-level function of the package that no __init__ re-exports
         # is an internal helper wherever it lives (helpers moved to a new
         # private module)
@@ -930,6 +937,133 @@ class Normalizer:
         self._flat[key] = ff
         return ff
 
+    def _reaching_def(self, fi: FuncInfo, use: ast.Name):
+        """The value of the plain assignment ``name = value`` that certainly
+        reaches ``use``: it precedes the use in the same statement block (or in
+        an enclosing block), nothing in between stores to the name, and no loop
+        that is crossed on the way out assigns the name anywhere."""
+        parents = fi.module.parents
+        if use not in parents:
+            return None
+        name = use.id
+
+        def stores_in(node):
+            for x in ast.walk(node):
+                if isinstance(x, ast.Name) and x.id == name and isinstance(x.ctx, (ast.Store, ast.Del)):
+                    return True
+                if isinstance(x, (ast.Global, ast.Nonlocal)) and name in x.names:
+                    return True
+            return False
+
+        cur: ast.AST = use
+        for _ in range(40):
+            p = parents.get(cur)
+            if p is None or isinstance(cur, (ast.FunctionDef, ast.AsyncFunctionDef, ast.Lambda, ast.ClassDef)):
+                return None
+            if isinstance(cur, ast.stmt):
+                blk = None
+                for fld in ("body", "orelse", "finalbody"):
+                    b = getattr(p, fld, None)
+                    if isinstance(b, list) and any(x is cur for x in b):
+                        blk = b
+                if blk is None and isinstance(p, ast.ExceptHandler):
+                    blk = p.body if any(x is cur for x in p.body) else None
+                if blk is None:
+                    return None
+                i = next(k for k, x in enumerate(blk) if x is cur)
+                for st in reversed(blk[:i]):
+                    if (
+                        isinstance(st, (ast.Assign, ast.AnnAssign)) and st.value is not None
+                        and (st.targets if isinstance(st, ast.Assign) else [st.target]) == [t for t in (st.targets if isinstance(st, ast.Assign) else [st.target]) if isinstance(t, ast.Name) and t.id == name]
+                        and len(st.targets if isinstance(st, ast.Assign) else [st.target]) == 1
+                    ):
+                        return st.value
+                    if stores_in(st):
+                        return None
+                # leaving through p: a loop that assigns the name anywhere may
+                # deliver a later definition on its next iteration
+                if isinstance(p, (ast.For, ast.While, ast.AsyncFor)) and stores_in(p):
+                    # the definitions inside the loop other than the ones we walked past
+                    return None
+                if isinstance(p, (ast.comprehension,)):
+                    return None
+            if isinstance(p, (ast.ListComp, ast.SetComp, ast.DictComp, ast.GeneratorExp)):
+                # comprehension variables shadow
+                if any(isinstance(x, ast.Name) and x.id == name for g in p.generators for x in ast.walk(g.target)):
+                    return None
+            cur = p
+        return None
+
+    def dealiased(self, fi: FuncInfo) -> FlatFunc:
+        """Copy of ``fi`` in which once-assigned locals that merely name an
+        attribute path of ``self`` / a parameter (``graph = self.graph``) are
+        replaced by that path and the alias assignment is dropped - for rules
+        that recognise receivers by their spelling.  Only when the function
+        never assigns that path itself (the alias and the path then denote the
+        same object throughout, callee side effects aside)."""
+        key = (fi.qualname, "dealiased")
+        got = self._flat.get(key)
+        if got is not None:
+            return got
+        node = copy.deepcopy(fi.node)
+        stores: dict[str, int] = {}
+        for n in own_nodes(node):
+            if isinstance(n, ast.Name) and isinstance(n.ctx, (ast.Store, ast.Del)):
+                stores[n.id] = stores.get(n.id, 0) + 1
+        params = set(fi.params)
+        attr_stores = {ast.unparse(n) for n in own_nodes(node) if isinstance(n, ast.Attribute) and isinstance(n.ctx, (ast.Store, ast.Del))}
+        mapping: dict[str, ast.AST] = {}
+        drop = set()
+        for st in own_nodes(node):
+            if not (isinstance(st, ast.Assign) and len(st.targets) == 1 and isinstance(st.targets[0], ast.Name)):
+                continue
+            name, v = st.targets[0].id, st.value
+            if stores.get(name) != 1 or name in params or not isinstance(v, ast.Attribute):
+                continue
+            root, ok = v, True
+            while isinstance(root, ast.Attribute):
+                root = root.value
+            if not (isinstance(root, ast.Name) and root.id in params and stores.get(root.id, 0) == 0):
+                continue
+            txt = ast.unparse(v)
+            if any(a == txt or txt.startswith(a + ".") for a in attr_stores):
+                continue
+            mapping[name] = v
+            drop.add(id(st))
+        if mapping:
+            ren = _Rename(mapping)
+
+            def strip(stmts):
+                out = []
+                for x in stmts:
+                    if id(x) in drop:
+                        continue
+                    for fld in ("body", "orelse", "finalbody"):
+                        sub = getattr(x, fld, None)
+                        if isinstance(sub, list) and sub and isinstance(sub[0], ast.stmt) and not isinstance(x, (ast.FunctionDef, ast.ClassDef)):
+                            setattr(x, fld, strip(sub) or [ast.copy_location(ast.Pass(), x)])
+                    for h in getattr(x, "handlers", []) or []:
+                        h.body = strip(h.body) or [ast.copy_location(ast.Pass(), h)]
+                    out.append(x)
+                return out
+
+            node.body = [ren.visit(x) for x in strip(node.body)] or [ast.Pass()]
+            ast.fix_missing_locations(node)
+        parents = {}
+        for p_ in ast.walk(node):
+            for c in ast.iter_child_nodes(p_):
+                parents[c] = p_
+        mi = ModuleInfo(fi.module.name, fi.module.relpath, fi.module.source, fi.module.tree)
+        mi.imports = fi.module.imports
+        mi.functions = fi.module.functions
+        mi.classes = fi.module.classes
+        mi.assigns = fi.module.assigns
+        mi.parents = parents
+        mi.line_map = getattr(fi.module, "line_map", None)
+        ff = FlatFunc(fi.qualname + ("" if fi.qualname.endswith("#dealiased") else "#dealiased"), fi.name, node, mi, fi.cls, fi.parent, list(fi.decorators))
+        self._flat[key] = ff
+        return ff
+
     # ----------------------------------------------------------- expansion
     def xexpr(self, fi: FuncInfo, node: ast.AST, depth: int = 6, _seen=None) -> ast.AST:
         """Copy of ``node`` with single-definition local aliases substituted
@@ -953,6 +1087,12 @@ class Normalizer:
                     if isinstance(v, ast.Lambda):
                         return n
                     return norm.xexpr(fi, v, depth - 1, _seen | {n.id})
+                if len(ds) > 1 and n.id not in defs.params:
+                    # several definitions in the function: the one that reaches
+                    # this use for certain (straight-line code before it)
+                    v = norm._reaching_def(fi, getattr(n, "_orig", n))
+                    if v is not None and not isinstance(v, ast.Lambda) and not (isinstance(v, (ast.List, ast.Set, ast.Tuple)) and not v.elts) and not (isinstance(v, ast.Dict) and not v.keys):
+                        return norm.xexpr(fi, v, depth - 1, _seen | {n.id})
                 # tuple unpacking from a tuple literal handled by Defs already
                 return n
 
@@ -972,7 +1112,36 @@ class Normalizer:
                     ds = defs.of(a.value.id)
                     if len(ds) == 1 and ds[0][0] == "value" and isinstance(ds[0][1], ast.Call) and a.value.id not in defs.params:
                         call = ds[0][1]
-                        cls = norm.ctx.repo.classes.get(norm.ctx.repo.resolve(fi.module.name, ast.unparse(call.func)) or "")
+                        cls = norm.ctx.repo.classes.get(norm.ctx.repo.resolve(getattr(call, "_origin_mod", None) or fi.module.name, ast.unparse(call.func)) or "")
+                        init = cls.methods.get("__init__") if cls is not None else None
+                        if cls is not None and init is not None and cls.name.startswith("_") and not cls.bases:
+                            # a private record class with a plain constructor: self.<f> = <parameter>
+                            stores = {}
+                            plain = True
+                            me = init.params[0] if init.params else "self"
+                            for st in body_of(init.node):
+                                if isinstance(st, ast.Expr) and isinstance(st.value, ast.Constant):
+                                    continue
+                                tg = st.targets[0] if isinstance(st, ast.Assign) and len(st.targets) == 1 else st.target if isinstance(st, ast.AnnAssign) else None
+                                if (
+                                    tg is not None and isinstance(tg, ast.Attribute) and isinstance(tg.value, ast.Name) and tg.value.id == me
+                                    and isinstance(st.value, ast.Name) and st.value.id in init.params
+                                ):
+                                    stores[tg.attr] = st.value.id
+                                else:
+                                    plain = False
+                            written_elsewhere = any(
+                                isinstance(x, ast.Attribute) and isinstance(x.ctx, ast.Store) and x.attr == a.attr
+                                for m_ in cls.methods.values() if m_ is not init for x in ast.walk(m_.node)
+                            )
+                            if plain and a.attr in stores and not written_elsewhere:
+                                ps = init.params[1:]
+                                pname = stores[a.attr]
+                                val = next((k.value for k in call.keywords if k.arg == pname), None)
+                                if val is None and pname in ps and ps.index(pname) < len(call.args):
+                                    val = call.args[ps.index(pname)]
+                                if val is not None:
+                                    return norm.xexpr(fi, val, depth - 1, _seen | {a.value.id})
                         if cls is not None and not cls.methods.get("__init__"):
                             fields = [
                                 st.target.id for st in cls.node.body
@@ -1032,7 +1201,13 @@ class Normalizer:
                             return norm.xexpr(norm._tmp_fi(t, fi), e, depth - 1, _seen) if depth > 1 else e
                 return c
 
-        return X().visit(copy.deepcopy(node))
+        dup = copy.deepcopy(node)
+        # copies of Name nodes remember the node they were copied from (the
+        # reaching-definition look-up needs its place in the function)
+        for a, b in zip(ast.walk(dup), ast.walk(node)):
+            if isinstance(a, ast.Name):
+                a._orig = getattr(b, "_orig", b)  # type: ignore[attr-defined]
+        return X().visit(dup)
 
     def xtext(self, fi: FuncInfo, node: ast.AST) -> str:
         try:
